@@ -111,10 +111,20 @@ func execVersion(vec J, out *Writer) {
 	case "cmp_text":
 		// two version TEXTS: parse both (decimal epochs with leading zeros, surrounding blanks ...) and compare
 		pa, pb := obsParse(S(vec["ta"])), obsParse(S(vec["tb"]))
-		rec := J{"ev": "cmp_text", "in": vec, "ok_a": pa.ok, "ok_b": pb.ok, "sign": 0, "sign_ba": 0}
+		rec := J{"ev": "cmp_text", "in": vec, "ok_a": pa.ok, "ok_b": pb.ok, "sign": 0, "sign_ba": 0, "sign_reused": 0}
 		if pa.ok && pb.ok {
 			rec["sign"] = sign(version.Compare(pa.v, pb.v))
 			rec["sign_ba"] = sign(version.Compare(pb.v, pa.v))
+			// the same two texts decoded into variables that held the OTHER version before: what is compared is what
+			// the text says, whatever the variable held
+			var x, y version.Version
+			ex1, ey1 := x.UnmarshalControl(S(vec["tb"])), y.UnmarshalControl(S(vec["ta"]))
+			ex2, ey2 := x.UnmarshalControl(S(vec["ta"])), y.UnmarshalControl(S(vec["tb"]))
+			if ex1 == nil && ey1 == nil && ex2 == nil && ey2 == nil {
+				rec["sign_reused"] = sign(version.Compare(x, y))
+			} else {
+				rec["sign_reused"] = 99
+			}
 		}
 		out.Put(rec)
 	case "triple":
